@@ -62,6 +62,7 @@ type HOutcome struct {
 	Violations []HViolation `json:"violations,omitempty"`
 	Strategy   string
 	Checked    int
+	Diverged   int      // mismatches explained by a pure engine/configuration divergence (see engineDivergence)
 	States     []uint64 `json:"-"` // abstract-state hashes observed before checked calls
 	Nontrivial bool
 	Clears     int
@@ -222,6 +223,27 @@ func freshFor(sc *HScenario, lv *liveValue) *coregex.Regex {
 		panic(err)
 	}
 	return re
+}
+
+// engineDivergence reports whether got is the answer a FRESH value gives to op
+// under another valid configuration of the same pattern and mode: NFA only, or the
+// default configuration. If so, the used value answered exactly like some fresh
+// value; that the answer depends on the configuration (which engine ran: the
+// lazy DFA, its NFA fallback, a reverse fast path, a truncated literal set) is a
+// pure divergence between engines - C12/C14/C19 territory, which this technique
+// does not decide - and not corruption of recycled state.
+func engineDivergence(sc *HScenario, lv *liveValue, op *Op, hb [][]byte, hs []string, got string) bool {
+	for _, k := range []Knobs{{NoDFA: true, NoPrefilter: true}, {}} {
+		k.Longest = lv.longest
+		ref, err := compile(sc.Pattern, k)
+		if err != nil {
+			continue
+		}
+		if execOp(ref, op, hb, hs) == got {
+			return true
+		}
+	}
+	return false
 }
 
 // abstractState summarises the recycled state that will serve the next call on re.
@@ -450,7 +472,9 @@ func runHistoryT(sc *HScenario, tr *traceReq) *HOutcome {
 				break // C20 decides the memory invariants only; answers are C13's business
 			}
 			want := execOp(freshFor(sc, lv), st.Op, hb, hs)
-			if got != want {
+			if got != want && engineDivergence(sc, lv, st.Op, hb, hs, got) {
+				out.Diverged++
+			} else if got != want {
 				fail(HViolation{Step: si, Kind: "result", What: fmt.Sprintf("%s on the used value differs from a fresh value", st.Op.API), Got: trunc(got, 300), Want: trunc(want, 300), Longest: lv.longest})
 			}
 		case "longest":
@@ -522,7 +546,9 @@ func runHistoryT(sc *HScenario, tr *traceReq) *HOutcome {
 					continue
 				}
 				want := execOp(freshFor(sc, lv), &st.Ops[j], hb, hs)
-				if got[j] != want {
+				if got[j] != want && engineDivergence(sc, lv, &st.Ops[j], hb, hs, got[j]) {
+					out.Diverged++
+				} else if got[j] != want {
 					fail(HViolation{Step: si, Kind: "result", What: fmt.Sprintf("%s, run at the same time as %d other call(s) on the used value, differs from a fresh value", st.Ops[j].API, len(st.Ops)-1), Got: trunc(got[j], 300), Want: trunc(want, 300), Longest: lv.longest})
 				}
 			}
@@ -620,6 +646,7 @@ func historyBatch(prop string, base uint64, from, to int, tier string, logHashes
 		if out.Clears > 0 {
 			sum.Probes["histories_with_cache_clear"]++
 		}
+		sum.Probes["mismatches_attributed_to_pure_engine_divergence"] += int64(out.Diverged)
 		if out.MaxGen > 60000 {
 			sum.Probes["histories_near_generation_wrap"]++
 		}
